@@ -773,6 +773,8 @@ func (ctx Ctx) callExpr(s *ast.CallExpr) coq.Expr {
 				msg = constant.StringVal(v)
 			}
 		}
+		// a double quote inside a Coq string literal is written twice
+		msg = strings.ReplaceAll(msg, "\"", "\"\"")
 		return coq.NewCallExpr(coq.GallinaIdent("Panic"), coq.GallinaString(msg))
 	}
 	// Special case for *sync.NewCond
